@@ -387,11 +387,35 @@ def rule_f(ctx, ix):
            rets in (['data_links|external_links'], ['external_links|data_links']),
            detail='LinkManager._links returns %s' % rets, where=f.where)
     exp = False
+    from .. import cond as _c
+    from ..util import parent_map as _pm, enclosing as _enc
+    pmf = _pm(f.node)
     for lp in [n for n in walk_no_nested(f.node) if isinstance(n, ast.For) and '_external_links' in unparse(n.iter)]:
-        for t in [n for n in lp.body if isinstance(n, ast.If) and 'LinkCollection' in unparse(n.test)]:
-            inner = [x for x in t.body if isinstance(x, ast.For) and unparse(x.iter) == unparse(lp.target)]
-            exp = bool(inner) and any(call_name(c) == 'add' for c in calls_in(inner[0])) and \
-                any(call_name(c) == 'add' for st in t.orelse for c in calls_in(st))
+        # the condition under which each `add` runs, whichever way the branches are written
+        tv = unparse(lp.target)
+        coll = _c.T('isinstance(%s,LinkCollection)' % tv)
+        member, plain = None, None
+        for c in calls_in(lp, nested=True):
+            if call_name(c) not in ('add', 'update'):
+                continue
+            st = c
+            while st is not None and not isinstance(st, ast.stmt):
+                st = pmf.get(id(st))
+            inner = _enc(pmf, c, (ast.For,))
+            if inner is not None and inner is not lp and unparse(inner.iter) == tv:
+                # added inside a loop over the members of the collection: the loop must run exactly for collections
+                pc = _c.path_condition(f.node, inner)
+                member = pc if member is None else _c.Or(member, pc)
+            elif call_name(c) == 'update' and c.args and unparse(c.args[0]) == tv:
+                pc = _c.path_condition(f.node, st)
+                member = pc if member is None else _c.Or(member, pc)
+            elif c.args and unparse(c.args[0]) == tv:
+                pc = _c.path_condition(f.node, st)
+                plain = pc if plain is None else _c.Or(plain, pc)
+        try:
+            exp = member is not None and plain is not None and _c.equivalent(member, coll) and _c.equivalent(plain, _c.Not(coll))
+        except ValueError:
+            exp = False
     ctx.ob(R, f.construct + ' collections', 'link collections contribute each of their member links; plain links contribute themselves', exp,
            detail='LinkManager._links no longer expands LinkCollection objects into their member links (or drops plain links)', where=f.where)
     m = lm.resolve('_inverse_links')
